@@ -58,6 +58,11 @@ var BaseAtoms = []string{
 	`{"patternProperties":{"^a":{"type":"integer"}},"additionalProperties":false}`,
 	`{"properties":{"a":{"type":"integer"}},"patternProperties":{"^a":{"maximum":2}},"additionalProperties":{"type":"string"}}`,
 	`{"properties":{"a":{}},"additionalProperties":false}`,
+	// member names that collide with keywords the object validator looks at by NAME (path heuristics of
+	// the Swagger-only checks), and unusual names
+	`{"properties":{"properties":{"properties":{"properties":{"type":"integer"},"items":{"type":"integer"}}}}}`,
+	`{"properties":{"items":{"properties":{"items":{"type":"integer"},"type":{"type":"integer"}}},"default":{"properties":{"example":{"type":"integer"}}}}}`,
+	`{"properties":{"":{"type":"integer"},"a.b":{"type":"integer"}},"required":[""]}`,
 }
 
 // slotted atoms: %s is replaced by every leaf
@@ -125,6 +130,7 @@ var Instances = []string{
 	`[]`, `[1]`, `[1,2]`, `[1,1]`, `[1,"x"]`, `[1,2,3]`, `[1,2,3,4,"x"]`, `[null]`, `[[1],[1]]`, `["aa",3]`,
 	`{}`, `{"a":1}`, `{"a":"x"}`, `{"a":1,"b":2}`, `{"a":null}`, `{"ab":1}`, `{"id":1}`, `{"$schema":1}`,
 	`{"a":{"a":1}}`, `{"a":[1,"x"]}`, `{"b":"aa"}`, `{"a":3,"c":"aa"}`, `{"a":"aa","b":3}`,
+	`{"properties":{"properties":{"properties":"x","items":1}}}`, `{"items":{"items":"x","type":1},"default":{"example":"x"}}`, `{"":"x","a.b":"x"}`,
 }
 
 // Merge returns the conjunction of atoms (union of keywords) or "" when two atoms share a keyword.
